@@ -1,4 +1,5 @@
 import AmcVerif.Props.C04c
+import AmcVerif.Props.C11
 import AmcVerif.Props.C12
 import AmcVerif.Lemmas.SmallSetRefine
 /-! C04 (refinement) — **every operation history of a SmallSet is a history of a `std::set`**, for the members as regenerated from
@@ -13,7 +14,8 @@ set that satisfies the invariant `a` is unique and is the sequence `operator==` 
 `C04_refine_insert`, `C04_refine_erase`, `C04_refine_clear`: each generated member is defined (no undefined behaviour), keeps the
 invariant, returns the specification's answer (insertion boolean, erase count) and commutes with the abstraction — in the inline
 state, in the large state, and when the call crosses from one to the other (`insert` at size N grows; `erase` of the last element of
-a large set and `clear` fall back to the inline state).  `C04_refines_history`: by induction, the same for every finite sequence of
+a large set and `clear` fall back to the inline state).  `C04_refine_erase_at`: `erase(iterator)` (both overloads) at any valid
+position refines `std::set::erase` of the designated element.  `C04_refines_history`: by induction, the same for every finite sequence of
 these operations from every state that satisfies the invariant, `C04_refines_from_empty`: from the empty set — this is the clause
 "growth beyond N, draining back to empty and refilling" of the property, for all histories and all N at once, which
 `C04_history` (insertions only) and the per-operation theorems of C04b/C04c did not state.  Membership, `size()` and `empty()` after
@@ -86,6 +88,27 @@ theorem C04_refine_erase (hswo : SWO lt) (N : Nat) (s : SSet α) (h : s.Inv lt N
 theorem C04_refine_clear (N : Nat) (s : SSet α) (h : s.Inv lt N) :
     ∃ r, Gen.SmallSet.clear lt N s = some r ∧ r.1.Inv lt N ∧ Rep lt r.1 [] :=
   ⟨_, clear_eq lt N s h.excl, ⟨fun _ => rfl, by simp, by simp [NoEquivDup], by simp [Sorted]⟩, Rep_empty⟩
+
+/-- `erase(const_iterator)` (the pointer overload used by a FlatSet backing and the variant overload used by a `std::set` backing)
+    as generated from the source, at ANY valid position, refines `std::set::erase` of the designated element `x`: the `std::set`
+    loses exactly `x` (its `erase(x)` reports 1), in either state, also when the call removes the last element of a large set
+    and the set falls back to the inline state -/
+theorem C04_refine_erase_at (hswo : SWO lt) (N : Nat) (s : SSet α) (h : s.Inv lt N) (a : List α) (hr : Rep lt s a) (i : Nat)
+    (hi : i < s.elems.length) :
+    ∃ r x, Gen.SmallSet.erase_at_ptr lt N s (s.isSmall, i) = some r ∧ Gen.SmallSet.erase_at_var lt N s (s.isSmall, i) = some r
+      ∧ s.elems[i]? = some x ∧ r.1.Inv lt N ∧ (eraseKey lt a x).2.1 = 1 ∧ Rep lt r.1 (eraseKey lt a x).1 := by
+  obtain ⟨x, hx⟩ : ∃ x, s.elems[i]? = some x := ⟨s.elems[i], by simp [hi]⟩
+  refine ⟨eraseAtR s i, x, erase_at_ptr_eq lt N s h.excl (s.isSmall, i) rfl hi, erase_at_var_eq lt N s h.excl (s.isSmall, i) rfl hi,
+    hx, eraseIdx_inv N s h i, ?_⟩
+  show (eraseKey lt a x).2.1 = 1 ∧ Rep lt (s.eraseIdx i) (eraseKey lt a x).1
+  have hel : (s.eraseIdx i).elems = s.elems.eraseIdx i := C11.C11_erase_elems N s h i
+  have p1 : s.elems.Perm (x :: (s.eraseIdx i).elems) := by rw [hel]; exact eraseIdx_perm s.elems i x hx
+  have hxx : Equiv lt x x := ⟨hswo.irrefl x, hswo.irrefl x⟩
+  have hmem : x ∈ a := hr.2.mem_iff.mpr (List.mem_of_getElem? hx)
+  have hsort := AmcVerif.FSPool.eraseKey_sorted' a hr.1 x
+  rcases eraseKey_spec hswo a hr.1 x with ⟨d1, y', hy', q1⟩ | ⟨_, hno, _⟩
+  · exact ⟨d1, hsort, (perm_erase_unique hswo (elems_nodup N s h) p1 (hr.2.symm.trans q1) hxx hy').symm⟩
+  · exact absurd ⟨x, hmem, hxx⟩ hno
 
 /-! ### histories -/
 
